@@ -91,7 +91,7 @@ def akai_sample(rng, name):
 def akai_sample_expected(s: GA.SampleFile) -> dict:
     exp = {
         "file_name": s.name, "sample_name": s.sname if s.sname is not None else s.name, "sample_type": "S3000 Sample" if s.s3000 else "S1000 Sample",
-        "sample_rate": str(s.rate or 44100), "bytes_per_sample": "2", "samples_cnt": str(len(s.words)), "start_sample": str(s.start),
+        "sample_rate": str(s.rate or 44100), "bytes_per_sample": "2", "samples_cnt": str(s.count_field()), "start_sample": str(s.start),
         "end_sample": str(len(s.words) if s.end is None else s.end), "note_pitch": note_from_a0(s.note - 21), "pitch_cents": f"cents#{s.cents}", "pitch_semi": str(s.semi),
         "loop_type": LOOP_TYPES[s.loop_type],
     }
